@@ -15,7 +15,8 @@ Record wobs := mkW { w_out : N; w_gor : Z; w_lis : Z; w_fds : Z }.
 
 Record case := mkSweep {
   w_id : N;
-  w_svc : N;            (* 1 vnc, 2 ssh-simulator, 3 ipp, 4 ftp data channel without certificate, 5 with *)
+  w_svc : N;            (* 1 vnc, 2 ssh-simulator, 3 ipp, 4 ftp data channel without certificate, 5 with,
+                           6 the real server (recovered panics, shared port), 7 redis, 8 ldap, 9 snmp, 10 memcached *)
   w_scenario : N;       (* which client behaviour (see the harness) *)
   w_silent : bool;      (* the client goes silent instead of closing *)
   w_n : N;
@@ -59,8 +60,16 @@ Definition mismatches (cs : list case) : list N :=
     (negb (length (w_obs k) =? N.to_nat (w_n k))%nat ||
      (((w_req k =? 1) || (w_req k =? 2))%N && negb (lists_eqb (w_lists k) (model_lists k))))) cs).
 
+(* the observation that decides: the first handler that did not come back, else the last one
+   (the deltas are cumulative) *)
+Definition deciding (k : case) : option wobs :=
+  match find (fun o => (2 <=? w_out o)%N) (w_obs k) with
+  | Some o => Some o
+  | None => last (map Some (w_obs k)) None
+  end.
+
 Definition case_sigs (k : case) : list N :=
-  match last (map Some (w_obs k)) None with
+  match deciding k with
   | None => [SIG_NO_RETURN]
   | Some o =>
       if (2 <=? w_out o)%N then
